@@ -15,6 +15,7 @@ import NrDaemon.Driver.Trigger
 import NrDaemon.Driver.Race
 import NrDaemon.Driver.Pid
 import NrDaemon.Driver.Watch
+import NrDaemon.Driver.Rules
 /-!
   Op-line driver (core Lean only; built as a `lean_exe`).
 
@@ -51,6 +52,7 @@ def dispatch (st : DState) (line : String) (impl : Option String) : DState × St
   | some "flags" => (st, flagsStep t impl)
   | some "argv" => (st, argvStep t impl)
   | some "redact" => (st, redactStep t impl)
+  | some "rules" => (st, rulesStep t impl)
   | some "watch" => let (c, o) := watchStep st.watch t impl; ({ st with watch := c }, o)
   | some "pid" => let (c, o) := pidStep st.pid t impl; ({ st with pid := c }, o)
   | some "race" => (st, raceStep t impl)
